@@ -8,7 +8,7 @@ from harness import nswire
 from harness.common import MachineryError, corpus_cases, lean_int, lean_list, lean_str, wl
 
 PID = 'C10'
-MODULES = ['NoteSeqVerif.Props.C10', 'NoteSeqVerif.Props.C10Events']
+MODULES = ['NoteSeqVerif.Props.C10', 'NoteSeqVerif.Props.C10Events', 'NoteSeqVerif.Props.C10Heap']
 EXE = 'drv_c10'
 THEOREMS = [
     ('NoteSeqVerif.Props.C10', 'NSV.C10.' + t) for t in [
@@ -27,7 +27,12 @@ THEOREMS = [
         'chord_progression_transpose_mapM', 'chord_progression_transpose_map', 'figRel_split',
         'chord_progression_transpose_ok', 'chord_progression_transpose_event', 'chord_progression_transpose_append',
         'lead_sheet_transpose_together', 'lead_sheet_squash_together',
-        'render_ne_no_chord', 'chord_progression_round_trip']]
+        'render_ne_no_chord', 'chord_progression_round_trip']] + [
+    # objects: an operation is a function of the object it is applied to and writes that object only
+    ('NoteSeqVerif.Props.C10Heap', 'NSV.C10.' + t) for t in [
+        'heap_transpose_frame', 'heap_squash_frame', 'heap_transpose_self', 'heap_squash_self', 'heap_deepcopy', 'heap_no_object',
+        'deepcopy_then_transpose_copy', 'deepcopy_then_transpose_original', 'deepcopy_then_transpose_both',
+        'deepcopy_then_squash_copy', 'hTrace_last', 'deepcopy_then_transpose_moved']]
 
 STEPS = 'ABCDEFG'
 
@@ -542,6 +547,194 @@ def oracle_ls(ml, cl, lsl, csl, events, figs, op, args, dflt=False):
     return None
 
 
+# ----------------------------------------------------------------------------- histories over objects
+def hist_make(ml, cl, lsl, o):
+    if o['type'] == 'mel':
+        return ml.Melody(list(o['events']))
+    if o['type'] == 'cp':
+        return cl.ChordProgression(list(o['figures']))
+    return lsl.LeadSheet(ml.Melody(list(o['events'])), cl.ChordProgression(list(o['figures'])))
+
+
+def hist_state(typ, x):
+    """(melody events, chord figures) an object holds right now"""
+    if typ == 'mel':
+        return [int(e) for e in x], []
+    if typ == 'cp':
+        return [], list(x)
+    return [int(e) for e in x.melody], list(x.chords)
+
+
+def run_hist(ml, cl, lsl, csl, objects, ops):
+    """the history on the real classes: objects are built, then every operation is applied to the object it names
+    (`deepcopy i` appends copy.deepcopy(objs[i])).  Returns (types, initial states, [(result, states of ALL objects)])"""
+    types = [o['type'] for o in objects]
+    objs = [hist_make(ml, cl, lsl, o) for o in objects]
+    first = [hist_state(t, x) for t, x in zip(types, objs)]
+    trace = []
+    for op in ops:
+        i = op[1]
+        if not 0 <= i < len(objs):
+            res = 'no-object'
+        elif op[0] == 'deepcopy':
+            objs.append(copy.deepcopy(objs[i]))
+            types.append(types[i])
+            res = 'ok'
+        else:
+            try:
+                if op[0] == 'transpose':
+                    if types[i] == 'cp':
+                        objs[i].transpose(op[2])
+                    else:
+                        objs[i].transpose(op[2], op[3], op[4])
+                    res = 'ok'
+                else:
+                    res = 'ok:%d' % int(objs[i].squash(op[2], op[3], op[4]))
+            except csl.ChordSymbolError:
+                res = 'err:ChordSymbolError'
+            except Exception as e:  # pylint: disable=broad-except
+                res = 'err:' + type(e).__name__
+        trace.append((res, [hist_state(t, x) for t, x in zip(types, objs)]))
+    return types, first, trace
+
+
+def hist_show(trace):
+    return ' || '.join(res + ' ; ' + ' | '.join('%s %s' % (wl(ev), wl(hx(f) for f in figs)) for ev, figs in states) for res, states in trace)
+
+
+def hist_request(csl, objects, ops, first, trace):
+    figs = {f for _, states in [('', first)] + list(trace) for _, fs in states for f in fs if f != 'N.C.'}
+    w = {'deepcopy': 'd', 'transpose': 't', 'squash': 's'}
+    return 'hist %s %s %s' % (table_tokens(csl, figs), wl('%s %s' % (wl(ev), wl(hx(f) for f in fs)) for ev, fs in first),
+                              wl(' '.join([w[op[0]]] + [str(x) for x in op[1:]]) for op in ops))
+
+
+def judge_events(before, after, k, mn, mx, what):
+    """melody events of ONE object before / after it was moved by k into [mn, mx)"""
+    if len(before) != len(after):
+        return '%s: melody length changed' % what
+    if mx - mn < 12:
+        return None
+    for a, b in zip(before, after):
+        if a < 0:
+            if b != a:
+                return '%s: special event %d became %d' % (what, a, b)
+        elif not (mn <= b < mx and (b - a - k) % 12 == 0):
+            return '%s: melody event %d (amount %d, range [%d, %d)) became %d' % (what, a, k, mn, mx, b)
+        elif mn <= a + k < mx and b != a + k:
+            return '%s: melody event %d moved by %d lies in [%d, %d) and needs no folding, but became %d' % (what, a, k, mn, mx, b)
+    return None
+
+
+def oracle_hist(ml, cl, lsl, csl, objects, ops):
+    """every operation of the history judged on EVERY object: the object it was applied to moved by exactly the
+    amount (melody into the range, every chord's root / bass / pitch classes by k modulo 12, quality kept), a deep
+    copy equals its source, and every object the operation was NOT applied to is exactly what it was before"""
+    try:
+        types, prev, trace = run_hist(ml, cl, lsl, csl, objects, ops)
+    except Exception as e:  # pylint: disable=broad-except
+        return 'implementation raised %s: %s' % (type(e).__name__, e)
+    try:
+        for n, (op, (res, states)) in enumerate(zip(ops, trace)):
+            i = op[1]
+            what = 'step %d (%s of object %d%s)' % (n + 1, op[0], i, '' if op[0] == 'deepcopy' else ' ' + ' '.join(map(str, op[2:])))
+            if res == 'no-object':
+                return None
+            for j in range(len(prev)):
+                if (op[0] == 'deepcopy' or j != i) and states[j] != prev[j]:
+                    return ('%s: object %d, which the operation was not applied to, changed: melody %r -> %r, chords %r -> %r'
+                            % (what, j, prev[j][0], states[j][0], prev[j][1], states[j][1]))
+            if op[0] == 'deepcopy':
+                if len(states) != len(prev) + 1 or states[-1] != prev[i]:
+                    return '%s: the copy does not hold what object %d holds' % (what, i)
+            else:
+                before, after = prev[i], states[i]
+                if op[0] == 'transpose':
+                    k, mn, mx = op[2], op[3], op[4]
+                    st = res
+                else:
+                    mn, mx, key = op[2], op[3], op[4]
+                    st = 'ok' if res.startswith('ok:') else res
+                    if st == 'ok':
+                        k = int(res[3:])
+                        mk = int(ml.Melody(list(before[0])).get_major_key())
+                        if mx - mn >= 12 and [e for e in before[0] if e >= 0] and (k - (key - mk)) % 12:
+                            return '%s: squash to key %d of a melody in key %d returned %d' % (what, key, mk, k)
+                    else:
+                        k = 0
+                r = oracle_figs(csl, before[1], after[1], k if st == 'ok' else 0, st)
+                if r:
+                    return '%s: %s' % (what, r)
+                if st == 'ok' and types[i] != 'cp':
+                    r = judge_events(before[0], after[0], k, mn, mx, what)
+                    if r:
+                        return r
+            prev = states
+    except Exception as e:  # pylint: disable=broad-except
+        return 'implementation raised %s: %s' % (type(e).__name__, e)
+    return None
+
+
+HIST_PATTERNS = ['copy-transposed', 'original-transposed', 'both-transposed', 'copy-there-and-back', 'copy-squashed',
+                 'copy-of-copy', 'random']
+
+
+def gen_hist(rng, csl, ml, kinds):
+    """objects + a history: deepcopy (of a LeadSheet, a Melody, a ChordProgression), then transpose / squash one of
+    the two objects (or both, or the copy there and back, or a copy of the copy), mostly by an everyday interval"""
+    typ = rng.choice(['ls', 'ls', 'ls', 'mel', 'cp'])
+    n = rng.choice([1, 2, 3, 4, 6, 8])
+    k = gen_k(rng) if rng.random() < 0.5 else rng.choice([2, 7, 5, -2, 1, -1, 3, 4, 9, 11, -5, 12])
+    mn, mx = gen_range(rng)
+    if mx - mn < 12 and rng.random() < 0.7:
+        mn, mx = 0, 128
+
+    def obj(t):
+        raw = (gen_events(rng, k) + [rng.choice([-2, -1, rng.randrange(128)]) for _ in range(n)])[:n]
+        o = {'type': t}
+        if t != 'cp':
+            o['events'] = [int(e) for e in ml.Melody(raw)]
+        if t != 'mel':
+            o['figures'] = gen_progression(rng, csl, kinds, n, k)[0] if rng.random() < 0.8 else gen_figs(rng, kinds, n)
+        return o
+    objects = [obj(typ)]
+    if rng.random() < 0.25:
+        objects.insert(rng.randrange(2), obj(rng.choice(['ls', 'mel', 'cp'])))
+    a = objects.index(next(o for o in objects if o['type'] == typ))
+    b = len(objects)
+    pat = rng.choice(HIST_PATTERNS)
+    if pat == 'copy-squashed' and typ == 'cp':
+        pat = 'copy-transposed'
+    key = rng.randrange(12)
+    T = lambda i, kk: ['transpose', i, kk, mn, mx]  # noqa: E731
+    if pat == 'copy-transposed':
+        ops = [['deepcopy', a], T(b, k)]
+    elif pat == 'original-transposed':
+        ops = [['deepcopy', a], T(a, k)]
+    elif pat == 'both-transposed':
+        ops = [['deepcopy', a], T(b, k), T(a, k)] if rng.random() < 0.5 else [['deepcopy', a], T(a, k), T(b, k)]
+    elif pat == 'copy-there-and-back':
+        ops = [['deepcopy', a], T(b, k), T(b, -k)]
+    elif pat == 'copy-squashed':
+        ops = [['deepcopy', a], ['squash', b, mn, mx, key]] + ([T(a, k)] if rng.random() < 0.5 else [])
+    elif pat == 'copy-of-copy':
+        ops = [['deepcopy', a], ['deepcopy', b], T(rng.choice([a, b, b + 1]), k), T(rng.choice([a, b, b + 1]), rng.choice([k, -k, 12]))]
+    else:
+        ops, m, tys = [], len(objects), [o['type'] for o in objects]
+        for _ in range(rng.choice([2, 3, 4, 5])):
+            r = rng.random()
+            i = rng.randrange(m)
+            if r < 0.35 or not ops:
+                ops.append(['deepcopy', i])
+                tys.append(tys[i])
+                m += 1
+            elif r < 0.85 or tys[i] == 'cp':
+                ops.append(T(i, rng.choice([k, k, -k, 12, gen_k(rng)])))
+            else:
+                ops.append(['squash', i, mn, mx, key])
+    return objects, ops, [pat, 'object:' + typ] + (['two-unrelated-objects'] if len(objects) > 1 else [])
+
+
 class _FakeRandom:
     """stands in for the `random` module inside sequences_lib during one augment call"""
 
@@ -982,7 +1175,9 @@ def run(chk):
                 'fifths), k above any earlier chord, respelled, an earlier figure again, fresh, unknown symbol; the call back by -k goes '
                 'through the model too; (5) _clamp_transpose and augment_note_sequence with the random module replaced; every public entry '
                 'point also as the caller can reach it: transpose_note_sequence in_place=True and with the default range, '
-                'Melody/LeadSheet.transpose with the default range, note_seq.transpose_chord_symbol. '
+                'Melody/LeadSheet.transpose with the default range, note_seq.transpose_chord_symbol; (6) histories over objects: '
+                'copy.deepcopy of a LeadSheet / Melody / ChordProgression, then transpose or squash of the copy, of the original, of both, '
+                'there and back, copies of copies, random mixes - all objects compared with the model heap after every operation. '
                 'non-trivial = distinct request answered by the model (not bad-op)'
                 % (len(MODS), len(BASSES)))
     kinds = list(csl._CHORD_KINDS_BY_ABBREV)
@@ -1011,6 +1206,9 @@ def run(chk):
         elif obj.get('kind') == 'sym' and cache.get(obj['figure'])[0] is not None:
             ks = [obj['k']] if 'k' in obj else obj['ks']
             B.add('corpus', sym_request(cache.get(obj['figure'])[0], ks), sym_impl(csl, cache, obj['figure'], ks)[0], 'm:' + name, 'sym-model', replay=obj)
+        elif obj.get('kind') == 'hist':
+            _, first, trace = run_hist(ml, cl, lsl, csl, obj['objects'], obj['ops'])
+            B.add('corpus', hist_request(csl, obj['objects'], obj['ops'], first, trace), hist_show(trace), 'm:' + name, 'hist-model', replay=obj)
         elif obj.get('kind') == 'mel':
             B.add('corpus', 'mel %d %d %d %s' % (obj['k'], obj['min'], obj['max'], wl(obj['events'])),
                   'ok ' + wl(run_melody(ml, obj['events'], obj['k'], obj['min'], obj['max'], obj.get('defaults', False))), 'm:' + name, 'mel-model', replay=obj)
@@ -1203,6 +1401,21 @@ def run(chk):
                 _fail(chk, r, rp)
     B.flush()
 
+    # ---- (4b) histories over OBJECTS: deepcopy, then transpose / squash one of the two objects (or both); every
+    #      object is compared with the model's heap after every operation and judged by the oracle
+    rng = chk.subrng('histories')
+    for i in range(chk.n(700, 15000)):
+        objects, ops, tags = gen_hist(rng, csl, ml, kinds)
+        rp = {'kind': 'hist', 'objects': objects, 'ops': ops}
+        types, first, trace = run_hist(ml, cl, lsl, csl, objects, ops)
+        res = sorted({'result:' + r.split(':')[0] + (':' + r.split(':')[1] if r.startswith('err') else '') for r, _ in trace})
+        B.add('object_histories', hist_request(csl, objects, ops, first, trace), hist_show(trace), repr(rp), tags + res, replay=rp)
+        r = oracle_hist(ml, cl, lsl, csl, objects, ops)
+        chk.count('oracle', None)
+        if r:
+            _fail(chk, r, rp)
+    B.flush()
+
     # ---- the package-level export is the function all of the above went through
     import note_seq
     same = getattr(note_seq, 'transpose_chord_symbol', None) is csl.transpose_chord_symbol
@@ -1307,6 +1520,15 @@ def oracle_obj(obj, verbose=False):
         d = obj.get('defaults', False)
         rs = [oracle_ls(ml, cl, lsl, csl, obj['events'], obj['figures'], kind, tuple(obj['args']), d)]
         say('  ->', _val(csl, lambda f: run_ls(ml, cl, lsl, csl, obj['events'], obj['figures'], kind, tuple(obj['args']), d), None))
+    elif kind == 'hist':
+        rs = [oracle_hist(ml, cl, lsl, csl, obj['objects'], obj['ops'])]
+        try:
+            _, first, trace = run_hist(ml, cl, lsl, csl, obj['objects'], obj['ops'])
+            say('  objects (melody events, chord figures):', first)
+            for op, (res, states) in zip(obj['ops'], trace):
+                say('  %s -> %s:' % (' '.join(map(str, op)), res), states)
+        except Exception as e:  # pylint: disable=broad-except
+            say('  the history raised %s: %s' % (type(e).__name__, e))
     elif kind == 'clamp':
         rs = [oracle_clamp(sl, *obj['args'])]
         say('  ->', _val(csl, lambda f: sl._clamp_transpose(*obj['args']), None))
